@@ -144,7 +144,7 @@ Example ex_delete_1x_shifts :
 Proof. vm_compute. reflexivity. Qed.
 
 Example ex_modify_20_by_current_value :
-  step (2, 0) "alice" ex_store (Some 1) (RModify (mkMod None (Some (VText "g1")) (Some (Some "Object Group", VText "G"))))
+  step (2, 0) "alice" ex_store (Some 1) (RModify (mkMod None (Some (Some "Object Group", VText "g1")) (Some (Some "Object Group", VText "G"))))
   = ([mset FGroups [VText "g0"; VText "G"] ex_key; ex_other], Success).
 Proof. vm_compute. reflexivity. Qed.
 
@@ -163,6 +163,12 @@ Example ex_unknown_name_is_refused_not_crashing :
    snd (step (1, 2) "alice" ex_store (Some 1) (RDelete (mkDel (Some "Bogus") None None None))),
    snd (step (2, 0) "alice" ex_store (Some 1) (RSet (Some (Some "Comment", VText "q")))))
   = (Failed RPermissionDenied, Failed RItemNotFound, Failed RReadOnly).
+Proof. vm_compute. reflexivity. Qed.
+
+(* Current Attribute and New Attribute of different kinds: refused, nothing changed *)
+Example ex_modify_20_mixed_kinds_refused :
+  step (2, 0) "alice" ex_store (Some 1) (RModify (mkMod None (Some (Some "Object Group", VText "g1")) (Some (Some "Name", VText "G"))))
+  = (ex_store, Failed RInvalidField).
 Proof. vm_compute. reflexivity. Qed.
 
 Example ex_set_sensitive :
